@@ -27,6 +27,8 @@ HASH_SENSITIVE = [
     "---\ntime: {prep: 45 secs, cook: a while}\n---\nstep\n",
     ">> time: 400 secs\n>> prep time: 1.5\n>> cook time: 2 h 5 min\nstep\n",
     "---\ntime: soon\nservings: many\ntags: [[a]]\nlocale: nowhere_\nauthor: {x: 1}\n---\nstep\n",
+    # values whose refusal names several things at once (the order in which they are named is part of the result)
+    ">> servings: 2|4|2|4|6|6\n>> tags: a, b, a, b\n@a{1}\n", "---\nservings: [3, 5, 3, 5, 7, 7]\n---\n~{5%parsecs} @&sugar{}\n",
 ]
 
 
